@@ -38,7 +38,8 @@ def sh(cmd, timeout=None, env=None, cwd=None, check=False):
             with _storm_lock:
                 k = _storm_count[name] = _storm_count.get(name, 0) + 1
             if k % 2 == 0:
-                e["VRT_SIGNAL_STORM_US"] = "400"
+                # the small primitives block for short moments only: a denser storm is needed to hit them
+                e["VRT_SIGNAL_STORM_US"] = "150" if name in ("drv_group", "drv_semaphore", "drv_once") else "400"
     try:
         p = subprocess.run(cmd, shell=isinstance(cmd, str), capture_output=True, text=True,
                            timeout=timeout, env=e, cwd=cwd, errors="replace")
